@@ -141,6 +141,58 @@ def make_case(src, typ, rng, force=None):
     return {"source": src.name, "prep": prep, "call": {"via": via, "opts": opts}}
 
 
+REQ_FILE = os.path.join(VERIF, "corpus", "c16_requirements.json")
+
+
+def requirement_cases(srcs):
+    """for every source and every correction type its definitions allow: the call with everything supplied (reason, every
+    extension of the definition, stamps in the header and in the options), and the same call with ONE of them left out.
+    -> [(source name, type, dropped item or None, case)]"""
+    import random as _random
+    out = []
+    for s in srcs:
+        for t in sorted(set(s.cd["types"])):
+            rng = _random.Random(sum(map(ord, s.name + t)))
+            full = make_case(s, t, rng, {"stamps": "both", "via": "opts", "reason": True, "ext": True, "series": False, "issue": False,
+                                         "copy_tax": False, "sign": True})
+            out.append((s.name, t, None, full))
+            items = ["reason"] + ["ext:" + k for k in sorted((full["call"]["opts"].get("ext") or {}))] + (["stamps"] if s.cd["stamps"] else []) + \
+                (["ext:*"] if len(full["call"]["opts"].get("ext") or {}) > 1 else [])
+            for it in items:
+                k2 = json.loads(json.dumps(full))
+                o = k2["call"]["opts"]
+                if it == "reason":
+                    o.pop("reason", None)
+                elif it == "stamps":
+                    o.pop("stamps", None)
+                    k2["prep"].pop("head_stamps", None)
+                elif it == "ext:*":
+                    o.pop("ext", None)          # no extension at all
+                else:
+                    o["ext"].pop(it[4:], None)
+                    if not o["ext"]:
+                        o.pop("ext")
+                out.append((s.name, t, it, k2))
+    return out
+
+
+def requirement_verdicts(srcs):
+    """-> {source: {type: {"full": accepted?, "required": [items whose omission alone makes the library refuse]}}}"""
+    byname = {s.name: s for s in srcs}
+    rc = requirement_cases(srcs)
+    obs = [Obs(l) for l in run_go([go_line(byname[n], k) for n, t, it, k in rc], shards=16)]
+    res = {}
+    for (n, t, it, k), o in zip(rc, obs):
+        acc = (not o.err) and o.verdict == "ok" and o.validates == "ok"
+        e = res.setdefault(n, {}).setdefault(t, {"full": None, "required": [], "cases": {}})
+        e["cases"][it or "full"] = k
+        if it is None:
+            e["full"] = acc
+        elif not acc:
+            e["required"].append(it)
+    return res
+
+
 def go_line(src, case):
     return "c16 correct %s %s %s" % (w(src.text), w(json.dumps(case["prep"])), w(json.dumps(case["call"])))
 
@@ -524,6 +576,71 @@ def run(c):
     verd, viaC, refusals = {}, {}, {}
     c.cov["verdicts"], c.cov["option_passing"], c.cov["refusal_kinds"] = verd, viaC, refusals
 
+    # ---- the correction options schema the library offers for each source (gobl correct --options): every enumeration
+    # lists a value once (a oneOf with a repeated const accepts nothing) and the types offered are the published ones
+    for s_ in srcs:
+        p_ = subprocess.run([os.path.join(BIN, "gobl"), "correct", "--options", os.path.join(REPO, s_.name)], stdout=subprocess.PIPE,
+                            stderr=subprocess.PIPE, text=True, env=GOENV)
+        c.count("options-schema", 1, s_.name)
+        try:
+            sch = json.loads(p_.stdout)
+        except ValueError:
+            if s_.cd["types"]:
+                rep0 = {"source": s_.name, "stdout": p_.stdout[:500], "stderr": p_.stderr[:500]}
+                c.report("gobl correct --options gives no JSON schema for %s" % s_.name, rep0)
+            continue
+        dups = []
+
+        def walk_(x, path):
+            if isinstance(x, dict):
+                for k in ("oneOf", "anyOf", "enum"):
+                    if isinstance(x.get(k), list):
+                        vals = [json.dumps(y.get("const") if isinstance(y, dict) and "const" in y else y, sort_keys=True) for y in x[k]]
+                        for v in sorted(set(v for v in vals if vals.count(v) > 1)):
+                            dups.append((path + "/" + k, v))
+                for k, v in x.items():
+                    walk_(v, path + "/" + k)
+            elif isinstance(x, list):
+                for i, v in enumerate(x):
+                    walk_(v, path + "/" + str(i))
+        walk_(sch, "")
+        if dups:
+            c.report("the correction options schema offered for %s repeats %s at %s: no value satisfies that oneOf" % (s_.name, dups[0][1], dups[0][0]),
+                     {"source": s_.name, "duplicates": dups[:10], "command": "gobl correct --options " + s_.name,
+                      "clause": "a correction has the requested type (only one the regime and addons allow): the options schema must admit those types"})
+        try:
+            offered = sorted(y["const"] for y in sch["$defs"]["CorrectionOptions"]["properties"]["type"]["oneOf"])
+        except (KeyError, TypeError):
+            offered = None
+        if offered is not None and sorted(set(offered)) != sorted(set(s_.cd["types"])):
+            c.report("the correction options schema for %s offers types %s, the published definitions allow %s" % (s_.name, sorted(set(offered)), sorted(set(s_.cd["types"]))),
+                     {"source": s_.name, "offered": offered, "published": s_.cd["types"]})
+
+    # ---- what each regime / addon requires of a correction (recorded from the pinned tree in corpus/c16_requirements.json by
+    # tools/mkc16req.py; these rules exist only in the validators): leaving out a required item must still make the library refuse
+    try:
+        base = json.load(open(REQ_FILE))
+    except (OSError, ValueError):
+        base = {}
+        c.report("corpus/c16_requirements.json is missing", {"machinery": "tools/mkc16req.py"}, no_input=True)
+    now = requirement_verdicts(srcs)
+    for n, bt in sorted(base.items()):
+        for t, e in sorted(bt.items()):
+            cur = now.get(n, {}).get(t)
+            if cur is None or not e.get("full"):
+                continue
+            c.count("requirements", 1, (n, t, "full"))
+            if not cur["full"]:
+                c.report("%s corrected as %s with reason, every extension of the definition and the stamps supplied is refused" % (n, t),
+                         {"source": n, "type": t, "case": cur["cases"]["full"],
+                          "clause": "a correction with everything the regime requires is produced (it is refused only otherwise)"})
+            for it in e["required"]:
+                c.count("requirements", 1, (n, t, it))
+                if it not in cur["required"] and it in cur["cases"]:
+                    c.report("%s corrected as %s WITHOUT its %s is accepted (and the result validates); the regime / addon requires it" % (n, t, it),
+                             {"source": n, "type": t, "omitted": it, "case": cur["cases"][it],
+                              "clause": "the preceding reference carries the reason, extensions and stamps the regime requires - otherwise the correction is refused"})
+
     # ---- cases ----
     per = 6 if quick else 110
     cases = []
@@ -650,10 +767,17 @@ def run(c):
         meta[rid] = (i, v[1].decode())
     rsub = list(range(len(rcases)))
     rng.shuffle(rsub)
-    for j in rsub[:nb // 5]:
+    # the PREPARED source (signed, header stamps) - a replica must drop them on every entry point
+    rsub.sort(key=lambda j: 0 if rcases[j]["prep"].get("head_stamps") else (1 if rcases[j]["prep"].get("sign") else 2))
+    rsub = rsub[:nb // 5]
+    rpreps = run_go(["c16 prepare %s %s" % (w(byname[rcases[j]["source"]].text), w(json.dumps(rcases[j]["prep"]))) for j in rsub], shards=8)
+    for j, pl in zip(rsub, rpreps):
+        v = parse_wire(pl)
+        if v[0] != b"ok":
+            continue
         rid = "r%d" % j
-        reqs.append({"action": "replicate", "req_id": rid, "payload": {"data": b64(byname[rcases[j]["source"]].text)}})
-        meta[rid] = (j, byname[rcases[j]["source"]].text)
+        reqs.append({"action": "replicate", "req_id": rid, "payload": {"data": b64(v[1])}})
+        meta[rid] = (j, v[1].decode())
     with Server() as srv:
         resp = srv.bulk(reqs)
     log("bulk run", len(reqs), round(time.time() - T0, 1))
